@@ -77,6 +77,8 @@ package preempt
 // statement.Commit() is reached only with the statement a successful attempt returned (preconditions of Commit,
 // proved at the call site); after a failed attempt nothing is committed and only then is the job recorded
 // (precondition [recordsOnlyFailedJobs] of UpdateRepresentative).
+// C05 "within one cycle": the action ends only when the job order is empty - every candidate job was popped and either
+// skipped for the reason above or attempted ([orderDrained]; a failed attempt does not stop the loop).
 // C10: no panic on any path (a non-empty order yields a job; the statement is dereferenced only after success).
 //@ func (*preemptAction).Execute
 //@   props C05 C06 C03 C10
@@ -91,5 +93,6 @@ package preempt
 //@     invariant [tablesWellFormed] forall q in smallestFailedJobsByQueue :: common.repsWF(smallestFailedJobsByQueue[q])
 //@     invariant [storedJobsExist] forall q in smallestFailedJobsByQueue :: forall k in smallestFailedJobsByQueue[q].representatives :: allocated(smallestFailedJobsByQueue[q].representatives[k])
 //@     invariant [perQueueScope] forall q in smallestFailedJobsByQueue :: common.repsAllInQueue(smallestFailedJobsByQueue[q], q)
+//@   ensures [orderDrained] utils.orderEmpty(jobsOrderByQueues)
 //@ end
 // ---- end exec2 ----
